@@ -285,6 +285,7 @@ def cmd_check(args):
             "inconclusive": inconclusive,
             "notes": notes,
             "workers": len(jobs),
+            "exhaustive": bool(spec.get("exhaustive", False)),
         },
         "assumptions": spec.get("assumptions", []),
         "wall_s": round(wall, 2),
